@@ -810,3 +810,158 @@ theorem tryMerge_new_id {B : Nat} {a b m : Cmd} (h : tryMerge B a b = .merged m)
   · cases h
 
 end SFV
+
+/-! ### completeness: the optimised row is a fixpoint — no two neighbours can be merged any more -/
+namespace SFV
+
+/-- neighbours `a`, `b` on a wire are left alone by the loop body -/
+def Stuck (try_ : Cmd → Cmd → Step) (a b : Cmd) : Prop := try_ a b = .advance
+
+/-- the zipper `(done, rest)` read as a list is a chain if `done` is one (backwards), `rest` is one, and
+the two ends are linked -/
+theorem zipper_chain (R : Cmd → Cmd → Prop) : ∀ (done rest : List Cmd),
+    List.IsChain (flip R) done → List.IsChain R rest →
+    (∀ d ∈ done.head?, ∀ a ∈ rest.head?, R d a) → List.IsChain R (done.reverse ++ rest) := by
+  intro done
+  induction done with
+  | nil => intro rest _ h _; simpa using h
+  | cons d ds ih =>
+    intro rest hd hr hl
+    have e : (d :: ds).reverse ++ rest = ds.reverse ++ (d :: rest) := by simp
+    rw [e]
+    refine ih (d :: rest) ?_ ?_ ?_
+    · cases ds with
+      | nil => exact List.IsChain.nil
+      | cons e es => exact (List.isChain_cons_cons.1 hd).2
+    · cases rest with
+      | nil => exact List.IsChain.singleton d
+      | cons a as => exact List.IsChain.cons_cons (hl d (by simp) a (by simp)) hr
+    · intro x hx a ha
+      simp only [List.head?_cons, Option.mem_def, Option.some.injEq] at ha
+      subst ha
+      cases ds with
+      | nil => simp at hx
+      | cons e es =>
+        simp only [List.head?_cons, Option.mem_def, Option.some.injEq] at hx
+        subst hx
+        exact (List.isChain_cons_cons.1 hd).1
+
+theorem chain_flip_cons (R : Cmd → Cmd → Prop) {a : Cmd} {done : List Cmd}
+    (hd : List.IsChain (flip R) done) (hl : ∀ d ∈ done.head?, R d a) : List.IsChain (flip R) (a :: done) := by
+  cases done with
+  | nil => exact List.IsChain.singleton a
+  | cons d ds => exact List.IsChain.cons_cons (hl d (by simp)) hd
+
+theorem chain_flip_tail (R : Cmd → Cmd → Prop) {d : Cmd} {ds : List Cmd}
+    (hd : List.IsChain (flip R) (d :: ds)) : List.IsChain (flip R) ds ∧ ∀ e ∈ ds.head?, R e d := by
+  cases ds with
+  | nil => exact ⟨List.IsChain.nil, by simp⟩
+  | cons e es =>
+    have := List.isChain_cons_cons.1 hd
+    refine ⟨this.2, ?_⟩
+    intro x hx
+    simp only [List.head?_cons, Option.mem_def, Option.some.injEq] at hx
+    subst hx
+    exact this.1
+
+/-- with enough fuel the loop returns a row in which every pair of neighbours is stuck -/
+theorem optLoop_chain (try_ : Cmd → Cmd → Step) : ∀ (fuel : Nat) (done rest : List Cmd),
+    2 * rest.length + done.length ≤ fuel → List.IsChain (flip (Stuck try_)) done →
+    (∀ d ∈ done.head?, ∀ a ∈ rest.head?, Stuck try_ d a) →
+    List.IsChain (Stuck try_) (optLoop try_ fuel done rest) := by
+  intro fuel
+  induction fuel with
+  | zero =>
+    intro done rest h _ _
+    have hr : rest = [] := List.eq_nil_of_length_eq_zero (by omega)
+    have hd : done = [] := List.eq_nil_of_length_eq_zero (by omega)
+    subst hr; subst hd
+    simp [optLoop_zero]
+  | succ fuel ih =>
+    intro done rest h hd hl
+    match rest, h, hl with
+    | [], _, hl =>
+      rw [optLoop_nil]
+      exact zipper_chain _ done [] hd List.IsChain.nil hl
+    | [a], _, hl =>
+      rw [optLoop_single]
+      exact zipper_chain _ done [a] hd (List.IsChain.singleton a) hl
+    | a :: b :: rest, h, hl =>
+      simp only [List.length_cons] at h
+      rw [optLoop_succ]
+      cases ht : try_ a b with
+      | advance =>
+        simp only
+        refine ih (a :: done) (b :: rest) (by simp only [List.length_cons]; omega) ?_ ?_
+        · exact chain_flip_cons _ hd (fun d hd' => hl d hd' a (by simp))
+        · intro d hd' x hx
+          simp only [List.head?_cons, Option.mem_def, Option.some.injEq] at hd' hx
+          subst hd'; subst hx
+          exact ht
+      | identity =>
+        cases done with
+        | nil =>
+          simp only
+          exact ih [] rest (by simp only [List.length_nil]; omega) List.IsChain.nil (by simp)
+        | cons d ds =>
+          simp only [List.length_cons] at h ⊢
+          obtain ⟨h1, h2⟩ := chain_flip_tail _ hd
+          refine ih ds (d :: rest) (by simp only [List.length_cons]; omega) h1 ?_
+          intro e he x hx
+          simp only [List.head?_cons, Option.mem_def, Option.some.injEq] at hx
+          subst hx
+          exact h2 e he
+      | merged m =>
+        cases done with
+        | nil =>
+          simp only
+          exact ih [] (m :: rest) (by simp only [List.length_cons, List.length_nil]; omega)
+            List.IsChain.nil (by simp)
+        | cons d ds =>
+          simp only [List.length_cons] at h ⊢
+          obtain ⟨h1, h2⟩ := chain_flip_tail _ hd
+          refine ih ds (d :: m :: rest) (by simp only [List.length_cons]; omega) h1 ?_
+          intro e he x hx
+          simp only [List.head?_cons, Option.mem_def, Option.some.injEq] at hx
+          subst hx
+          exact h2 e he
+
+/-- on a row of stuck neighbours the loop changes nothing -/
+theorem optLoop_of_chain (try_ : Cmd → Cmd → Step) : ∀ (fuel : Nat) (done rest : List Cmd),
+    List.IsChain (Stuck try_) rest → optLoop try_ fuel done rest = done.reverse ++ rest := by
+  intro fuel
+  induction fuel with
+  | zero => intro done rest _; exact optLoop_zero _ _ _
+  | succ fuel ih =>
+    intro done rest hc
+    match rest, hc with
+    | [], _ => exact optLoop_nil _ _ _
+    | [a], _ => exact optLoop_single _ _ _ _
+    | a :: b :: rest, hc =>
+      have h := List.isChain_cons_cons.1 hc
+      rw [optLoop_succ, show try_ a b = Step.advance from h.1]
+      simp only
+      rw [ih (a :: done) (b :: rest) h.2]
+      simp
+
+/-- whether a pair is stuck does not depend on the offset used for new identities -/
+theorem tryMerge_stuck_iff (B B' : Nat) (a b : Cmd) : Stuck (tryMerge B) a b ↔ Stuck (tryMerge B') a b := by
+  unfold Stuck tryMerge
+  split
+  · split
+    · simp
+    · cases opMerge a b <;> simp
+  · simp
+
+theorem optRow_chain (B : Nat) (row : List Cmd) : List.IsChain (Stuck (tryMerge B)) (optRow B row) :=
+  optLoop_chain (tryMerge B) (optFuel row.length) [] row (by simp [optFuel]) List.IsChain.nil (by simp)
+
+theorem optRow_idem (B B' : Nat) (row : List Cmd) : optRow B' (optRow B row) = optRow B row := by
+  have h := optRow_chain B row
+  have h' : List.IsChain (Stuck (tryMerge B')) (optRow B row) :=
+    h.imp fun a b hab => (tryMerge_stuck_iff B B' a b).1 hab
+  unfold optRow at h' ⊢
+  rw [optLoop_of_chain (tryMerge B') _ [] _ h']
+  simp
+
+end SFV
